@@ -773,7 +773,7 @@ macro_rules! merge_abs {
 //@ replay_stub: frequencies/reverse_purge_item_hash_map.rs | fn hash_item<T: Hash>(item: &T) -> u64 { | return self::verif_kani_frequencies_map::verif_hash_item(item);
 //@ desc: merge(other): for every key lb <= t_self + t_other <= ub, total_weight = sum of both, the argument's error is added, maximum_error <= N/3, capacity respected, invariant re-established, argument unchanged - also when the argument tracks no key but carries weight
 merge_abs!(c07_sketch_merge_purged_other, vm::LAYOUT_0);
-merge_abs!(c07_sketch_merge_one_key, vm::LAYOUT_1);
+merge_abs!(c07_sketch_merge_one_key, vm::LAYOUT_1); //@ tier: quick
 merge_abs!(c07_sketch_merge_three_keys, vm::LAYOUT_3);
 //@ endfamily: x
 
